@@ -187,6 +187,10 @@ pub fn compress_lib(spec: &CompressSpec, source: Arc<Vec<u8>>, temp_override: Op
 
 /// like `compress_lib`; the reader fails with EIO once `fail_at` bytes have been delivered
 pub fn compress_lib_failing(spec: &CompressSpec, source: Arc<Vec<u8>>, temp_override: Option<&str>, fail_at: Option<usize>) -> LibCompress {
+    compress_lib_failing_with(spec, source, temp_override, fail_at, std::io::ErrorKind::Other)
+}
+
+pub fn compress_lib_failing_with(spec: &CompressSpec, source: Arc<Vec<u8>>, temp_override: Option<&str>, fail_at: Option<usize>, kind: std::io::ErrorKind) -> LibCompress {
     use bitar::api::compress::{create_archive, CreateArchiveOptions};
     let options = CreateArchiveOptions {
         chunker_config: spec.cfg.to_config(),
@@ -197,7 +201,7 @@ pub fn compress_lib_failing(spec: &CompressSpec, source: Arc<Vec<u8>>, temp_over
         metadata: spec.metadata.clone(),
     };
     let mut input = SimSource::drawn(source);
-    input.fail_at = fail_at.map(|n| (n, std::io::ErrorKind::Other));
+    input.fail_at = fail_at.map(|n| (n, kind));
     // one library compression in three writes to a (facade) tokio::fs::File, the writer most
     // callers pass. What counts is the file as another process finds it at the moment
     // create_archive returns: a write still on its way to the blocking pool is not in it
